@@ -1272,11 +1272,33 @@ def sym_abs(x):
 
 
 def sym_bytes(*a, **k):
-    if _len(a) == 1 and type(a[0]) is SymBytes:
-        return a[0]
-    if _len(a) == 1 and type(a[0]) is SymInt:
-        n = a[0].__index__()
-        return bytes(n)
+    """bytes(...) shadow: an iterable holding symbolic bytes becomes a SymBytes"""
+    if _len(a) == 1 and not k:
+        x = a[0]
+        t = type(x)
+        if t is SymBytes:
+            return x
+        if t is SymInt:
+            return bytes(x.__index__())
+        if t.__module__ == "kv.bufmodels":
+            return _norm(SymBytes(x.items()))
+        if t in (list, tuple) or hasattr(x, "__next__"):
+            items = list(x)
+            if any(type(i) in (SymInt, SymBool) for i in items):
+                out = []
+                for i in items:
+                    if type(i) is SymBool:
+                        i = SymInt(*lift(i))
+                    if type(i) is SymInt:
+                        if not ((i >= 0) if type(i >= 0) is bool else bool(i >= 0)) or not ((i <= 255) if type(i <= 255) is bool else bool(i <= 255)):
+                            raise ValueError("bytes must be in range(0, 256)")
+                        out.append(i)
+                    else:
+                        if not 0 <= i <= 255:
+                            raise ValueError("bytes must be in range(0, 256)")
+                        out.append(int(i))
+                return SymBytes(out)
+            return bytes(items)
     return bytes(*a, **k)
 
 
@@ -1298,6 +1320,8 @@ def sym_bool(x=False):
 
 import uuid as _uuid
 import enum as _enum
+
+_MODEL_TO_REAL[id(sym_bytes)] = bytes
 
 _PROXY_BASE.update({SymInt: int, SymBool: bool, SymBytes: bytes, SymStr: str, SymFloat: float, SymRatio: float,
                     SymUUID: _uuid.UUID, SymEnumMember: _enum.Enum})
